@@ -1,5 +1,6 @@
 import Tahoe.Base.DrvUtil
 import Tahoe.Immutable.FetchShow
+import Tahoe.Immutable.Finder
 /-! Driver for C03 (SegmentFetcher event system).
     `fetch K ev ev …` with ev ∈
       a:ID.SHNUM.SERVER.RTT,ID.SHNUM.SERVER.RTT,…   add_shares (`a:-` = empty list)
@@ -17,6 +18,47 @@ open Tahoe.Drv Tahoe.Fetch
 
 
 
+/-! `finder MAX SERVERS ev …` — ShareFinder (SERVERS = comma list of server numbers in permuted order, `-` = none); ev ∈
+      h            hungry()                      l          one queued loop runs
+      r:REQ:SHNUMS the get_buckets of request REQ answers with shares SHNUMS (`-` = no shares)
+      e:REQ        it fails                      o:REQ      its overdue timer fires          x   stop()
+    Output after every event: `calls|running|hungry|servers-left|exhausted|pending|overdue|timers|loops`. -/
+namespace DrvFinder
+open Tahoe.Finder
+
+def showFOut : FOut → String
+  | .send srv req => s!"send={srv}.{req}"
+  | .gotShares srv shnums => s!"shares={srv}:" ++ "+".intercalate (shnums.map toString)
+  | .noMoreShares => "nomore"
+  | .exc => "exc"
+
+def parseFEv (t : String) : Option FEv :=
+  match t.splitOn ":" with
+  | ["h"] => some .hungry
+  | ["l"] => some .turn
+  | ["r", q, l] => do pure (.response (← q.toNat?) (← parseNatList l))
+  | ["e", q] => do pure (.error (← q.toNat?))
+  | ["o", q] => do pure (.overdue (← q.toNat?))
+  | ["x"] => some .stop
+  | _ => none
+
+def fdigest (s : Finder) : String :=
+  let calls := if s.out.isEmpty then "-" else ",".intercalate (s.out.map showFOut)
+  "|".intercalate [calls, DrvFetch.b2s s.running, DrvFetch.b2s s.hungry, DrvFetch.showIds s.servers, DrvFetch.b2s s.exhausted,
+    DrvFetch.showIds (s.pending.map (·.1)), DrvFetch.showIds (DrvFetch.sortNat s.overdue), DrvFetch.showIds (DrvFetch.sortNat s.timers),
+    toString s.loops]
+
+def runFEvs (s : Finder) (acc : List String) : List String → Option (List String)
+  | [] => some acc.reverse
+  | t :: rest =>
+    match parseFEv t with
+    | none => none
+    | some e =>
+      let s' := step { s with out := [] } e
+      runFEvs s' (fdigest s' :: acc) rest
+
+end DrvFinder
+
 def handle : List String → String
   | "fetch" :: k :: evs =>
     match k.toNat? with
@@ -24,6 +66,12 @@ def handle : List String → String
       | some outs => if outs.isEmpty then "-" else ";".intercalate outs
       | none => "bad-op"
     | none => "bad-op"
+  | "finder" :: mx :: srv :: evs =>
+    match mx.toNat?, parseNatList srv with
+    | some mx, some srv => match DrvFinder.runFEvs { maxOutstanding := mx, servers := srv } [] evs with
+      | some outs => if outs.isEmpty then "-" else ";".intercalate outs
+      | none => "bad-op"
+    | _, _ => "bad-op"
   | _ => "bad-op"
 
 def main : IO Unit := mainLoop handle
